@@ -356,3 +356,66 @@ Fixpoint bbuf (fuel : nat) (ev : nat -> bg_event) (i : nat) (w : world) (own : N
 
 Definition buffer_batch_get (fuel : nat) (ev : nat -> bg_event) (L0 : layout) (w : world) (own : N) (keys : list key) :=
   bbuf fuel ev 0 w own (group_keys L0 keys) [].
+
+(* ---------------------------------------------------------------- (g) the scanner over the world *)
+(* The rows a scan request of snapshot (ts, ignored set rs) is served in world w: the visible value of a
+   key, or "locked" for a key whose lock blocks the read (no value: the store does not know it). *)
+Definition wrows (w : world) (ts : N) (rs : list N) : rows :=
+  filter_map (fun k => match store_get (k_get (w_keys w) k) ts rs with
+                       | SVal (Some v) => Some (k, Val v)
+                       | SVal None => None
+                       | SLocked _ => Some (k, Lk None)
+                       end) (map fst (w_keys w)).
+
+(* Scanner.Next over one batch: a locked pair is resolved by the point get of the same snapshot
+   (resolveCurrentLock -> snapshot.get: it shares the ignored set and changes the world by resolving
+   locks); None = the point get did not come back *)
+Fixpoint consume_w (gfuel : nat) (ko : bool) (ts : N) (c : cursor) (ps : rows) (st : world * list N)
+  : option (list (key * value) * bool * (world * list N)) :=
+  match ps with
+  | [] => Some ([], false, st)
+  | e :: ps' =>
+      if out_of_bound c (fst e) then Some ([], true, st)
+      else match snd e with
+           | Val v =>
+               match consume_w gfuel ko ts c ps' st with
+               | Some (rest, stop, st') => Some ((fst e, if ko then [] else v) :: rest, stop, st')
+               | None => None
+               end
+           | Lk _ =>
+               match get gfuel (fst st) (snd st) ts (fst e) with
+               | (Some o, w', rs') =>
+                   match consume_w gfuel ko ts c ps' (w', rs') with
+                   | Some (rest, stop, st') =>
+                       Some (match o with Some v => (fst e, v) :: rest | None => rest end, stop, st')
+                   | None => None
+                   end
+               | (None, _, _) => None
+               end
+           end
+  end.
+
+Fixpoint wscan_loop (fuel gfuel B : nat) (ko : bool) (ts : N) (retry : nat -> option retry_kind)
+         (lay : nat -> layout) (i : nat) (st : world * list N) (c : cursor) : outcome :=
+  match fuel with
+  | O => OutOfFuel []
+  | S f =>
+      if eof c then Done [] else
+      match retry i with
+      | Some _ => wscan_loop f gfuel B ko ts retry lay (S i) st c
+      | None =>
+          match get_data B (lay i) (wrows (fst st) ts (snd st)) c with
+          | GDPanic => Panicked []
+          | GD ps c' =>
+              match consume_w gfuel ko ts c' ps st with
+              | None => OutOfFuel []
+              | Some (out, stop, st') =>
+                  if stop then Done out else prepend out (wscan_loop f gfuel B ko ts retry lay (S i) st' c')
+              end
+          end
+      end
+  end.
+
+Definition wscan (fuel gfuel B : nat) (ko : bool) (ts : N) (w : world) (retry : nat -> option retry_kind)
+           (lay : nat -> layout) (lo hi : key) (rv : bool) : outcome :=
+  wscan_loop fuel gfuel (norm_batch B) ko ts retry lay 0 (w, []) (init_cursor lo hi rv).
